@@ -122,17 +122,30 @@ def syscalls_of(setup, op):
 # ---------------------------------------------------------------------------------------------
 # findings: signatures
 
+def _impl_spec(detail):
+    m = re.search(r"implementation '([^']*)', spec '([^']*)'", detail)
+    if not m:
+        return "", ""
+    return spec_view("", m.group(1)), spec_view("", m.group(2))
+
+
 def signature_of(ops, r):
-    """name the known shapes of failure (matched against known_findings.json by the main session)"""
+    """name the known shapes of failure (matched against known_findings.json by the main session);
+    works on full answer lines and on their API-only view"""
     at = r.get("at", 0)
     op = ops[at] if at < len(ops) else ""
     d = r.get("detail", "")
+    impl, spec = _impl_spec(d)
     had_par = any(o.startswith("par ") for o in ops[: at + 1])
-    if op.startswith("par ") and "new-shm" in op and (("fail 607/22" in d and "fstat=0" in d) or re.search(r"shm_open\(m\d\)/2/432=ENOENT", d)):
-        return "first-open-race-window-a"
-    if had_par and re.match(r"\d+ lock \d+", op) and "would-block" in d:
+    if op.startswith("par ") and "new-shm" in op:
+        # a first-time opener fails where every serialisation of the two calls lets it succeed
+        a, b = impl.split(" ; "), spec.split(" ; ")
+        if len(a) == len(b) and any(x == "fail" and y.startswith("ok") for x, y in zip(a, b)):
+            return "first-open-race-window-a"
+    if had_par and re.match(r"\d+ lock \d+", op) and spec == "would-block" and impl == "ok":
         return "first-open-race-window-b"
-    if re.match(r"\d+ new-shm ", op) and "fstat=0 mmap/0/" in d and any(re.match(r"\d+ crashA? 1 new-shm", o) for o in ops[:at]):
+    m = re.match(r"\d+ new-shm \d+ (m\d) ", op + " ")
+    if m and impl == "fail" and spec.startswith("ok") and any(re.match(r"\d+ crashA? 1 new-shm \d+ %s " % m.group(1), o + " ") for o in ops[:at]):
         return "crash-leaves-zero-size-segment"
     return None
 
@@ -168,7 +181,9 @@ class Runner:
             if self.unsigned > 3:
                 return
         if self.chk.violation("\n".join(small) + "\n", "%s %s: %s" % (self.label, r2["kind"], r2["detail"]), signature=sig):
-            self.found = True
+            # a finding with a signature (F11, zero-size segment) must not hide a broken proof / correspondence
+            if sig is None:
+                self.found = True
 
     def one(self, ops, count=True):
         ops = list(ops)
